@@ -4,6 +4,7 @@
    The caller renders into its buffered writer and then flushes it.  What counts is what arrives at the writer
    behind it:
      d, de  : the document and the program's own first failure (from [RenderSpec.denote])
+     hs     : the errors of the limited writers of the program's hand-written components (from [RenderSpec.host_errs])
      res    : what Render returned
      fres   : what the caller's Flush() returned afterwards
      got    : the bytes the writer behind the caller's buffered writer accepted, during Render and that Flush
@@ -15,23 +16,23 @@ Import ListNotations.
 From V Require Import lib.Bytes spec.RenderSpec.
 Local Open Scope nat_scope.
 
-Definition spec_wrap_ok (d : bytes) (de : option err) (res fres : option err) (got : bytes) (l1 l2 : list logent)
+Definition spec_wrap_ok (d : bytes) (de : option err) (hs : list err) (res fres : option err) (got : bytes) (l1 l2 : list logent)
                         (foreign : nat) : Prop :=
   prefix got d /\
   (res = None -> fres = None -> got = d /\ de = None) /\
-  (forall x, first_refusal l1 = Some x -> res = Some x \/ (res = de /\ de <> None)) /\
-  (first_refusal l1 = None -> res = de) /\
+  (forall x, first_refusal l1 = Some x -> res = Some x \/ (res = de /\ de <> None) \/ (exists y, res = Some y /\ In y hs)) /\
+  (first_refusal l1 = None -> res = de \/ (exists y, res = Some y /\ In y hs)) /\
   fres = first_refusal (l1 ++ l2) /\
   foreign = 0.
 
 (* the same predicate over canonically encoded results, for the harness *)
-Definition spec_wrap_okb (d : bytes) (de : option err) (res fres : bytes) (got : bytes) (l1 l2 : list logent)
+Definition spec_wrap_okb (d : bytes) (de : option err) (hs : list err) (res fres : bytes) (got : bytes) (l1 l2 : list logent)
                          (foreign : nat) : bool :=
   prefixb got d &&
   (if bytes_eqb res (bs "nil") && bytes_eqb fres (bs "nil") then bytes_eqb got d && negb (is_some de) else true) &&
   match first_refusal l1 with
-  | Some x => bytes_eqb res (enc_err x) || (bytes_eqb res (enc_res de) && is_some de)
-  | None => bytes_eqb res (enc_res de)
+  | Some x => bytes_eqb res (enc_err x) || (bytes_eqb res (enc_res de) && is_some de) || res_in res hs
+  | None => bytes_eqb res (enc_res de) || res_in res hs
   end &&
   bytes_eqb fres (enc_res (first_refusal (l1 ++ l2))) &&
   Nat.eqb foreign 0.
